@@ -274,6 +274,18 @@ REPRS = ["<R>", "<task 'a'>", "─ r", ". r", "| r", "║ r", " ", "", "répr", 
 NL_TEXTS = ["<ML\nline2>", "d1\nd2", "\n", "x\n"]
 ERRS = [["V", "bad"], ["K", "kéy"], ["V", "two\nlines"], ["V", "a\n\nb"], ["tb", "boom"],
         ["cause", "inner", "outer"], ["V", ""], ["V", "  "]]
+# every character str.splitlines() breaks at (finding F20, fixed): ordinary cases
+SEP_ERRS = [["V", "a\rb"], ["V", "e\r\nf\r"], ["V", "a\x0bb\x0cc"], ["V", "x\x1cy\x1dz\x1e"],
+            ["V", "p\x85q\u2028r\u2029s"], ["K", "k\rk"], ["V", "\r\n\x85\n"], ["cause", "i\u2028n", "o\x0cut\r"]]
+ERRS = ERRS + SEP_ERRS
+
+
+def sep_error_specials():
+    """error texts with each line-break character, at top level, in an inner stack and in a child stack"""
+    for e in SEP_ERRS:
+        yield {"root": None, "frames": [], "leaf": None, "error": e}
+        yield wrap_ctx(_ctx("c", inner=_stub(root=None, frames=1, error=e), kids=[["s", _stub(frames=1, error=e)],
+                                                                                   ["s", _stub(frames=0, error=e)]]))
 
 
 def _pick(rng, xs):
